@@ -241,6 +241,8 @@ pub enum Op {
     /// right after the consumer took an event (the generator is suspended in that emission): a shared mutex handed to
     /// the builder (app set, storage) was still locked by the state machine
     LockHeldAtEmission { which: &'static str },
+    /// the embedder held the shared storage mutex during the poll that starts here
+    EmbedderHoldsStorage,
     StreamEnd,
     ControlIssue { req: usize, handle: usize, on_demand: bool },
     ControlReply { req: usize, reply: &'static str },
@@ -307,6 +309,8 @@ pub enum Auth {
     ReplayResponse(usize),
     /// replay only the ETag of an earlier genuine exchange
     ReplayEtag(usize),
+    /// the signature of an earlier genuine exchange (0 = the most recent) joined with THIS request's hash
+    ReplaySignature(usize),
 }
 
 #[derive(Clone, Debug, PartialEq)]
@@ -421,6 +425,9 @@ pub struct Script {
     pub repeat_last_http: bool,
     /// the service URL was drawn from outside the URL grammar (construction failures are expected)
     pub junk_service_url: bool,
+    /// bit k set: the embedder holds the shared storage mutex during the poll that follows the k-th (mod 32) event
+    /// it took (an embedder writing its own keys in reaction to an event)
+    pub busy_storage_mask: u32,
 }
 
 impl Default for Script {
@@ -449,6 +456,7 @@ impl Default for Script {
             spoil_app_after_start: None,
             repeat_last_http: false,
             junk_service_url: false,
+            busy_storage_mask: 0,
         }
     }
 }
